@@ -81,7 +81,8 @@ def install_singlelane_wrappers():
 
     def init(self, *a, **k):
         orig_init(self, *a, **k)
-        self._queue = LogDeque(self._queue)
+        # (keep whatever bound the class gave its deque)
+        self._queue = LogDeque(self._queue, getattr(self._queue, 'maxlen', None))
 
     _queues.SingleLane.__init__ = init
 
